@@ -334,11 +334,11 @@ func (vm *VM) fmtValue(verb byte, v Value) Value {
 		// big integers implement fmt.Formatter: %d renders the decimal value
 		if p, ok := ifc.V.(*Value); ok && p != nil {
 			if b, isBig := (*p).(BigVal); isBig {
-				return mkStr([]Atom{{Kind: aDec, T: b.T}})
+				return mkStr([]Atom{{Kind: aDec, T: vm.forceBig(b)}})
 			}
 		}
 		if b, isBig := ifc.V.(BigVal); isBig {
-			return mkStr([]Atom{{Kind: aDec, T: b.T}})
+			return mkStr([]Atom{{Kind: aDec, T: vm.forceBig(b)}})
 		}
 	}
 	switch x := ifc.V.(type) {
